@@ -103,7 +103,25 @@ fn conj(mut xs: Vec<F>) -> F {
 pub fn gen_family(r: &mut Rng, n: usize) -> Vec<F> {
     let at = |i: usize| F::Atom(i % n);
     let not = |f: F| F::Not(Box::new(f));
-    match r.below(10) {
+    match r.below(11) {
+        // adjacent pairs: every condition is the SAME connective over the next two statements
+        // (s0 <- op(s0,s1), s1 <- op(s2,s3), ...): conditions that differ only in where the operands
+        // are split (exercises anything keyed by a rendering of the condition)
+        10 => {
+            let k = r.below(5);
+            (0..n)
+                .map(|i| {
+                    let (a, b) = (Box::new(at(2 * i)), Box::new(at(2 * i + 1)));
+                    match k {
+                        0 => F::And(a, b),
+                        1 => F::Or(a, b),
+                        2 => F::Xor(a, b),
+                        3 => F::Imp(a, b),
+                        _ => F::Iff(a, b),
+                    }
+                })
+                .collect()
+        }
         // self-referential compounds: a statement occurs (positively or negatively) in its own
         // condition next to a small formula over others (exercises the goal-variable handling of the
         // path cubes and the 'conclude the other value' step of the counting search)
@@ -1419,6 +1437,17 @@ impl Exec {
                 labels.push(cand);
             }
         }
+        // quoted labels that contain the separator of the format (and collide when concatenated):
+        // not together with lexicographic sorting, whose order check receives the labels comma separated
+        let history = lr.below(3);
+        let comma_labels = sort != "lx" && (2..=6).contains(&n) && lr.chance(1, 5);
+        if comma_labels {
+            labels = ["a,b", "c", "a", "b,c", "c,", ",a"][..n].iter().map(|x| x.to_string()).collect();
+        }
+        let flabels: Vec<String> = labels
+            .iter()
+            .map(|l| if l.chars().all(|c| c.is_ascii_alphanumeric()) { l.clone() } else { format!("\"{l}\"") })
+            .collect();
         let ws = |wr: &mut Rng| -> String {
             match wr.below(5) {
                 0 => " ".into(),
@@ -1430,18 +1459,36 @@ impl Exec {
         let mut txt = String::new();
         for &k in &perm {
             if k < n {
-                txt += &format!("s({}).{}", labels[k], ws(&mut wr));
+                txt += &format!("s({}).{}", flabels[k], ws(&mut wr));
             } else {
-                let body = text(&self.acs[k - n], &labels);
+                let body = text(&self.acs[k - n], &flabels);
                 // blanks are allowed around commas
-                let body = if wr.bool() { body.replace(',', &format!("{},{}", ws(&mut wr), ws(&mut wr))) } else { body };
-                txt += &format!("ac({}{},{}{}).{}", labels[k - n], ws(&mut wr), ws(&mut wr), body, ws(&mut wr));
+                let body = if wr.bool() && !comma_labels { body.replace(',', &format!("{},{}", ws(&mut wr), ws(&mut wr))) } else { body };
+                txt += &format!("ac({}{},{}{}).{}", flabels[k - n], ws(&mut wr), ws(&mut wr), body, ws(&mut wr));
             }
         }
         let src: &'static str = Box::leak(txt.into_boxed_str());
         let parser: &'static AdfParser<'static> = Box::leak(Box::new(AdfParser::default()));
         if parser.parse()(src).is_err() {
             return Some(vec!["= parse-error".into()]);
+        }
+        // the parser object may have a history: frameworks built from it before it is sorted, or
+        // sorted the other way first
+        match history {
+            0 => {
+                let _ = Adf::from_parser(parser);
+                let _ = BdAdf::from_parser(parser);
+            }
+            1 if sort != "none" => {
+                if sort == "lx" {
+                    parser.varsort_alphanum();
+                } else {
+                    parser.varsort_lexi();
+                }
+                let _ = Adf::from_parser(parser);
+                let _ = BdAdf::from_parser(parser);
+            }
+            _ => {}
         }
         match sort {
             "lx" => {
